@@ -5,7 +5,9 @@
    per-transaction atomicity, durability in commit order); [bootstrap] is Hashgraph.Bootstrap after
    newCore on the reopened store (peer set 0, topological events 0,1,2,.. until the first missing key,
    batches of 100 through the unchanged HgImpl pipeline with DB writes off, ProcessSigPool after every
-   batch with BadgerStore.GetBlock's cache-then-database lookup), [head_seq] is core.setHeadAndSeq.
+   batch with BadgerStore.GetBlock's cache-then-database lookup behind the LastBlockIndex test of fix
+   d90db55), [head_seq] is core.setHeadAndSeq.  [bootstrap_cur] / [recovered] are the code as it stands;
+   [recovered_unguarded] is the same with the ProcessSigPool of before d90db55 (regression witness only).
 
    A node's life is a list of operations [nop] (insertion attempts of arbitrary events, valid or not, and
    ProcessSigPool calls) from any genesis set; [node_log] is what it writes (the entries Bootstrap can
@@ -29,10 +31,10 @@ Import ListNotations.
 Open Scope Z_scope.
 
 (* Bootstrap never fails on a database left by a crash: no topological gap, every replayed event is
-   accepted again *)
+   admitted again *)
 Theorem C11_bootstrap_succeeds : forall self_ genesis oracle_ ops k, wf (op_events ops) ->
   br_ok (recovered self_ genesis oracle_ ops k) = true.
-Proof. exact (recover_ok false). Qed.
+Proof. exact (recover_ok true). Qed.
 Print Assumptions C11_bootstrap_succeeds.
 
 (* the recovered DAG is exactly the written one: the event table (with the RECOMPUTED rounds, lamport
@@ -46,52 +48,20 @@ Theorem C11_known_exact : forall self_ genesis oracle_ ops k, wf (op_events ops)
   events (br_st r) = events pre /\ pevents (br_st r) = pevents pre /\ known_events (br_st r) = known_events pre /\
   (forall x es, get_event (br_st r) x = Some es -> zget x (db_ev d) = Some (ev_e es)) /\
   (forall x e, zget x (db_ev d) = Some e -> exists es, get_event (br_st r) x = Some es /\ ev_e es = e).
-Proof. exact (recover_known_exact false). Qed.
+Proof. exact (recover_known_exact true). Qed.
 Print Assumptions C11_known_exact.
 
-(* FULL STATEMENT (false of the code as it stands, see C11_redelivers_refuted): the blocks delivered
-   to the reset application during bootstrap are those of the node before the crash *)
-Definition C11_redelivers_statement : Prop :=
-  forall self_ genesis oracle_ ops k, wf (op_events ops) ->
-  delivered (br_st (recovered self_ genesis oracle_ ops k)) = delivered (pre_state self_ genesis oracle_ ops k).
-
-(* refutation on the faithful model: 115 events of one validator, event 1 carries a signature of block
-   105; after a clean shutdown the replay reaches the first ProcessSigPool (after 100 events) with
-   blocks 0..96 re-created, finds block 105 of the previous life in the DATABASE, stores it, and numbers
-   the next blocks 106, 107, ... .  Replayed on the real code by harness/cmd/crash -byz (FINDINGS.md) *)
-Theorem C11_redelivers_refuted : exists self_ genesis oracle_ ops k, wf (op_events ops) /\
-  map b_index (delivered (br_st (recovered self_ genesis oracle_ ops k))) <>
-  map b_index (delivered (pre_state self_ genesis oracle_ ops k)).
-Proof. exact (ex_intro _ 0 (ex_intro _ w_genesis (ex_intro _ w_oracle (ex_intro _ (w_ops 115) (ex_intro _ 1000%nat (conj (w_wf 115) w_refuted)))))). Qed.
-Print Assumptions C11_redelivers_refuted.
-
-(* PARTIAL: what is missing from the full statement is exactly the case in which ProcessSigPool took a
-   block from the database during bootstrap ([br_db_block], computed by the model and reported by the
-   check for every recovery).  Otherwise delivery list and last block index are those of the node
-   before the crash *)
-Theorem C11_redelivers_partial : forall self_ genesis oracle_ ops k, wf (op_events ops) ->
-  false = true \/ br_db_block (recovered self_ genesis oracle_ ops k) = false ->
+(* HEADLINE.  For every history and EVERY crash point, the blocks delivered to the reset application
+   during bootstrap are exactly the blocks of the node when the operations that had started completed
+   (same bodies, same indexes, same order; the last block index too), hence (next theorem) every block
+   delivered before the crash reappears identically at the same position; ProcessSigPool never
+   consults a block of the previous life *)
+Theorem C11_redelivers : forall self_ genesis oracle_ ops k, wf (op_events ops) ->
   br_db_block (recovered self_ genesis oracle_ ops k) = false /\
   delivered (br_st (recovered self_ genesis oracle_ ops k)) = delivered (pre_state self_ genesis oracle_ ops k) /\
   last_block (br_st (recovered self_ genesis oracle_ ops k)) = last_block (pre_state self_ genesis oracle_ ops k).
-Proof. exact (recover_redelivers false). Qed.
-Print Assumptions C11_redelivers_partial.
-
-(* PARTIAL, external premise: fewer than 100 recorded events (a single batch) *)
-Theorem C11_redelivers_one_batch : forall self_ genesis oracle_ ops k, wf (op_events ops) ->
-  (length (pre_events self_ genesis oracle_ ops k) < BATCH)%nat ->
-  delivered (br_st (recovered self_ genesis oracle_ ops k)) = delivered (pre_state self_ genesis oracle_ ops k).
-Proof. exact (recover_redelivers_one_batch false). Qed.
-Print Assumptions C11_redelivers_one_batch.
-
-(* with the guard proposed in FINDINGS.md (a signature stays pending while its block index is above
-   LastBlockIndex) the full statement holds, and the database blocks are never consulted *)
-Theorem C11_redelivers_with_proposed_fix : forall self_ genesis oracle_ ops k, wf (op_events ops) ->
-  br_db_block (recovered_g true self_ genesis oracle_ ops k) = false /\
-  delivered (br_st (recovered_g true self_ genesis oracle_ ops k)) = delivered (pre_state self_ genesis oracle_ ops k) /\
-  last_block (br_st (recovered_g true self_ genesis oracle_ ops k)) = last_block (pre_state self_ genesis oracle_ ops k).
-Proof. exact (fun s g o ops k W => recover_redelivers true s g o ops k W (or_introl eq_refl)). Qed.
-Print Assumptions C11_redelivers_with_proposed_fix.
+Proof. exact recover_redelivers_cur. Qed.
+Print Assumptions C11_redelivers.
 
 (* every delivery list of the node's past is an initial segment of the later ones: what was delivered
    before the crash (during the first i <= j operations) reappears identically, at the same positions *)
@@ -118,34 +88,61 @@ Theorem C11_no_self_fork : forall self_ genesis oracle_ ops k, wf (op_events ops
   (forall e, In e evs -> e_creator e = self rec -> e_index e <= snd (head_seq rec)) /\
   ((head_seq rec = (-1, -1) /\ forall e, In e evs -> e_creator e <> self rec) \/
    exists e, In e evs /\ e_creator e = self rec /\ head_seq rec = (e_id e, e_index e)).
-Proof. exact (recover_head_seq false). Qed.
+Proof. exact (recover_head_seq true). Qed.
 Print Assumptions C11_no_self_fork.
 
 (* resuming: on ANY continuation (insertion attempts and ProcessSigPool calls) the recovered node keeps
-   the admission invariant of C07 and stays equal, in every component but the block-signature
-   bookkeeping (blocks, anchor, pending signatures, last block index, delivered list, own signatures),
-   to the node that never crashed; with the delivered list included when no database block was
-   consulted.  Agreement with the rest of the network is therefore inherited from the un-crashed node *)
+   the admission invariant of C07 and the block-store invariant of C02, delivers exactly the blocks the
+   node that never crashed delivers, and stays equal to it in every component but blocks' collected
+   signatures, anchor block and pending signatures ([simr true]).  Agreement with the rest of the
+   network is therefore inherited from the un-crashed node *)
 Theorem C11_continues : forall all self_ genesis oracle_ ops k ops',
   wf all -> incl (op_events ops) all -> incl (op_events ops') all ->
   let rec := br_st (recovered self_ genesis oracle_ ops k) in
   let pre := pre_state self_ genesis oracle_ ops k in
-  dag_ok (nrun rec ops') /\ simr false (nrun rec ops') (nrun pre ops') /\
-  (false = true \/ br_db_block (recovered self_ genesis oracle_ ops k) = false ->
-   delivered (nrun rec ops') = delivered (nrun pre ops') /\ binv (nrun rec ops')).
-Proof. exact (recover_continues false). Qed.
+  dag_ok (nrun rec ops') /\ binv (nrun rec ops') /\ simr true (nrun rec ops') (nrun pre ops') /\
+  delivered (nrun rec ops') = delivered (nrun pre ops').
+Proof. exact recover_continues_cur. Qed.
 Print Assumptions C11_continues.
 
 (* the writes of the real node that are not in [node_log] (rounds, frames, later peer sets, rewrites of
    an already written event record) do not change what Bootstrap computes *)
-Theorem C11_bootstrap_ignores_other_writes : forall g self_ genesis oracle_ d evs w,
+Theorem C11_bootstrap_ignores_other_writes : forall self_ genesis oracle_ d evs w,
   dbev_ok d evs -> invisible d w ->
-  bootstrap g self_ genesis oracle_ (db_apply d w) = bootstrap g self_ genesis oracle_ d.
-Proof. exact bootstrap_ignores. Qed.
+  bootstrap_cur self_ genesis oracle_ (db_apply d w) = bootstrap_cur self_ genesis oracle_ d.
+Proof. exact (bootstrap_ignores true). Qed.
 Print Assumptions C11_bootstrap_ignores_other_writes.
 
+(* the running node's ProcessSigPool (HgImpl.process_sig, no database) is unchanged by the test added in
+   d90db55: no block is ever stored above the last block index *)
+Theorem C11_guard_redundant_in_memory : forall st s, binv st ->
+  process_sig st s = if last_block st <? bs_index s then st else process_sig st s.
+Proof. exact process_sig_guard_redundant. Qed.
+Print Assumptions C11_guard_redundant_in_memory.
+
+(** Regression: ProcessSigPool before fix d90db55 *)
+
+(* witness: 115 events of one validator, event 1 carries a signature of block 105; after a clean
+   shutdown the replay reached the first ProcessSigPool (after 100 events) with blocks 0..96 re-created,
+   found block 105 of the previous life in the DATABASE, stored it, and numbered the next blocks
+   106, 107, ... .  On the real code: harness/cmd/crash -byz (scenario early-signature), which every run
+   of the check stages and which must show identical re-delivery; reverting d90db55 makes it fail *)
+Theorem C11_unguarded_bootstrap_redelivers_shifted : exists self_ genesis oracle_ ops k, wf (op_events ops) /\
+  map b_index (delivered (br_st (recovered_unguarded self_ genesis oracle_ ops k))) <>
+  map b_index (delivered (pre_state self_ genesis oracle_ ops k)).
+Proof. exact (ex_intro _ 0 (ex_intro _ w_genesis (ex_intro _ w_oracle (ex_intro _ (w_ops 115) (ex_intro _ 1000%nat (conj (w_wf 115) w_unguarded_shifted)))))). Qed.
+Print Assumptions C11_unguarded_bootstrap_redelivers_shifted.
+
+(* the unguarded function failed exactly when it took a block from the database *)
+Theorem C11_unguarded_bootstrap_exact_unless_db_block : forall self_ genesis oracle_ ops k, wf (op_events ops) ->
+  br_db_block (recovered_unguarded self_ genesis oracle_ ops k) = false ->
+  delivered (br_st (recovered_unguarded self_ genesis oracle_ ops k)) = delivered (pre_state self_ genesis oracle_ ops k).
+Proof. exact (fun s g o ops k W E => proj1 (proj2 (recover_redelivers false s g o ops k W (or_intror E)))). Qed.
+Print Assumptions C11_unguarded_bootstrap_exact_unless_db_block.
+
 (* non-vacuity: the witness history crashed in the middle of its 52nd operation (150 log entries):
-   premises hold, 49 blocks re-delivered, head/seq restored *)
+   premises hold, 49 blocks re-delivered, head/seq restored; and the regression history with the code as
+   it stands: same indexes as before the shutdown, the early signature attached to the re-created block *)
 Example C11_example :
   let r := recovered 0 w_genesis w_oracle (w_ops 115) 150 in
   ops_started 0 w_genesis w_oracle (w_ops 115) 150 = 52%nat /\
@@ -153,4 +150,12 @@ Example C11_example :
   length (delivered (br_st r)) = 49%nat /\
   map b_index (delivered (br_st r)) = map b_index (delivered (pre_state 0 w_genesis w_oracle (w_ops 115) 150)) /\
   head_seq (br_st r) = (51, 51) /\ known_events (br_st r) = [(0, 51)].
+Proof. vm_compute. repeat split. Qed.
+
+Example C11_example_regression_history :
+  let r := recovered 0 w_genesis w_oracle (w_ops 115) 1000 in
+  br_ok r = true /\ br_db_block r = false /\
+  map b_index (skipn 95 (delivered (br_st r))) =
+    [95; 96; 97; 98; 99; 100; 101; 102; 103; 104; 105; 106; 107; 108; 109; 110; 111] /\
+  option_map b_sigs (zget 105 (blocks (br_st r))) = Some [(0, 105)].
 Proof. vm_compute. repeat split. Qed.
